@@ -252,6 +252,16 @@ def fn_programs() -> list:
         {"outer": DEF(["v"], [RETURN(CALL("scaled", BIN("*", V("v"), F(0.5))))]), "scaled": DEF(["x"], [RETURN(BIN("*", V("x"), I(3)))]),
          "late": DEF(["v"], [RETURN(CALL("scaled", BIN("*", V("v"), F(0.25))))])},
         [WRITE(CALL("scaled", I(2))), WRITE(CALL("outer", I(5))), WRITE(CALL("late", I(5)))], loop=[WRITE(CALL("outer", AREAD())), WRITE(CALL("scaled", AREAD()))], ain=[3, 4, 5, 6], npass=2)
+    add("fn_variants_called_from_two_earlier_helpers",
+        {"pre": DEF(["v"], [RETURN(CALL("scaled", V("v")))]), "outer": DEF(["v"], [RETURN(CALL("scaled", BIN("*", V("v"), F(0.5))))]),
+         "scaled": DEF(["x"], [RETURN(BIN("*", V("x"), I(3)))]), "post": DEF(["v"], [RETURN(BIN("+", CALL("scaled", V("v")), CALL("scaled", BIN("*", V("v"), F(0.25)))))])},
+        [WRITE(CALL("pre", I(2))), WRITE(CALL("outer", I(5))), WRITE(CALL("post", I(5))), WRITE(CALL("outer", AREAD())), WRITE(CALL("pre", AREAD()))], ain=[3, 4])
+    # two helpers that call each other, both used with an int and with a float: whichever is emitted first calls a variant of the
+    # other one that is only defined further down
+    add("fn_mutual_recursion_variants",
+        {"down_a": DEF(["x"], [IF([(CMP(V("x"), ("<=", I(0))), [RETURN(V("x"))])]), RETURN(CALL("down_b", BIN("-", V("x"), I(1))))]),
+         "down_b": DEF(["x"], [IF([(CMP(V("x"), ("<=", I(0))), [RETURN(BIN("*", V("x"), I(2)))])]), RETURN(CALL("down_a", BIN("-", V("x"), I(1))))])},
+        [WRITE(CALL("down_a", I(2))), WRITE(CALL("down_a", F(2.5))), WRITE(CALL("down_b", F(1.5))), WRITE(CALL("down_b", AREAD())), WRITE(CALL("down_a", BIN("*", AREAD(), F(0.25))))], ain=[3, 7])
     # annotated parameters: Python does not enforce annotations - the value the call site passes is the value the parameter holds
     add("fn_annotated_param", {"scale": DEF(["raw", "k"], [RETURN(BIN("*", V("raw"), V("k")))], ann={"raw": "int"}),
                                "lbl": DEF(["t", "n"], [RETURN(FSTR("", V("t"), ":", V("n")))], ann={"t": "str", "n": "float"})},
